@@ -78,6 +78,15 @@ RULES = [
     (r"ast_grep::config::(read_directory_yaml|with_rule_stats)$", r"assert:overflow_Sub", None, "SAFE", "effective rules are a subset of the parsed rules: total_rule_count counts the collection built from that vector"),
     (r"rule_collection::RuleCollection::<L>::total_rule_count$", r"assert:overflow_Add", None, "SAFE", CNT),
     (r"combined::Suppressions::collect$", r"assert:overflow_Add", None, "SAFE", CNT),
+    # ---------------- sg test / LSP paths ----------------------------------------------------------
+    (r"source::Content>::accept_edit$", r".*", None, "ASSUMED", "edit position/length come from a match on this very document (make_edit / replace_by); napi/pyo3 callers pass user edits (C10/C06 value level)"),
+    (r"ast_grep_core::source::position_for_offset$", r".*", None, "ASSUMED", "offset <= len by accept_edit's contract (value level); row/column counters are bounded by the text"),
+    (r"ast_grep::verify::parallel_collect(::\{closure#\d\})*$", r"assert:(overflow_Add|div_zero)|chunks", None, "SAFE", "threads = available_parallelism().min(12) >= 1, so the divisor is non-zero and chunk_size = (len + threads) / threads >= 1"),
+    (r"ast_grep::verify::parallel_collect(::\{closure#\d\})*$", r"unwrap", None, "SAFE", "join() only fails when the scoped child panicked; it re-raises that panic"),
+    (r"ast_grep::verify::reporter::", r"assert:overflow_Add", None, "SAFE", CNT),
+    (r"ast_grep::verify::reporter::InteractiveReporter<O> as .*::report_case_detail::\{closure#0\}$", r"panic", None, "SAFE", "prompt(.., \"ynaq\", ..) only returns one of the offered letters"),
+    (r"ast_grep::verify::run_test_rule_impl(::\{closure#0\})?$", r"unwrap", r"lock", "ASSUMED", "mutex poisoning needs a panic in another reporter call"),
+    (r"ast_grep::verify::run_test_rule_impl(::\{closure#0\})?$", r"unwrap", r"write_fmt", "STARTUP-ONLY", "writing the report to the terminal; fails only on a closed stdout"),
     # ---------------- CLI printing -------------------------------------------------------------
     (r"cloud_print::CloudProcessor as .*::print_(diffs|matches)$", r"panic_fmt", None, "SAFE", "`sg run` never selects the cloud printer (format flag exists only on `sg scan`)"),
     (r"(colored_print::ColoredProcessor as .*::print_rule|cloud_print::print_rule|colored_print::print_rule_title)$", r"panic_fmt", None, "SAFE", "rules with effective severity off are dropped before scanning (RuleCollection::try_new filters Severity::Off)"),
